@@ -78,3 +78,7 @@ CALLS += [
     dict(module="xrspatial/pathfinding.py", function="_neighborhood_structure", props=("C14",), where="assign:neighbor_ys",
          call="[-1, 0, 1, -1, 1, -1, 0, 1]", why="8-neighbourhood offsets (y)"),
 ]
+
+# C16: the kernel's precondition n in {4, 8} is established by the wrapper's guard (the raise under it is the only statement)
+CALLS.append(dict(module="xrspatial/zonal.py", function="regions", props=("C16",), where="test", call="neighborhood not in (4, 8)",
+                  why="regions() rejects any other neighbourhood before calling _area_connectivity (requires n == 4 or n == 8)"))
